@@ -32,6 +32,9 @@ type DecorSpec struct {
 	// ListenReads: the OnShutdown callback reads its own bar (Current, Completed) and writes a line through the container
 	ListenReads bool
 	Wide        bool // the text consists of 2-column runes
+	// SharedWC > 0: the decorator is built from a WC value that user code has already initialised once and reuses for
+	// every decorator of that group (each decorator must still get a synchronisation channel of its own)
+	SharedWC int
 }
 
 type BarSpec struct {
@@ -362,6 +365,14 @@ func (x *X) buildDecorR(r *runner, bar, side, ord int, ds DecorSpec) decor.Decor
 		}
 	}
 	pd.name = fmt.Sprintf("d%d%c%d", bar, "pa"[side], ord)
+	if ds.SharedWC > 0 && ds.SharedWC < len(x.sharedWC) {
+		if !x.sharedInit[ds.SharedWC] {
+			x.sharedWC[ds.SharedWC] = wc
+			x.sharedWC[ds.SharedWC].Init()
+			x.sharedInit[ds.SharedWC] = true
+		}
+		wc = x.sharedWC[ds.SharedWC]
+	}
 	pd.WC = wc
 	pd.WC.Init()
 	var d decor.Decorator = pd
@@ -391,6 +402,8 @@ func (x *X) buildDecorR(r *runner, bar, side, ord int, ds DecorSpec) decor.Decor
 		d = decor.Meta(d, id)
 	case "cmeta":
 		d = decor.OnCompleteMeta(decor.OnComplete(d, "done"), id)
+	case "ccolor":
+		d = decor.OnCompleteMeta(d, func(s string) string { return "\x1b[32m" + s + "\x1b[0m" })
 	case "ameta":
 		d = decor.OnAbortMeta(decor.OnAbort(d, "abrt!"), id)
 	}
